@@ -41,8 +41,10 @@ CONSTANTS
     RecCap,        \* transactions a memtable holds while the log is replayed (a segment with more is split)
     RecoverVariant \* "orig": parts of a split segment are flushed with log_number = segment + 1 while the last part stays
                    \*         in memory, and the writer reopens on the old log number (pinned commit)
-                   \* "repo": the last part is flushed too when it shares its segment with a flushed part, and the
-                   \*         writer reopens on the manifest's log number as it is after recovery
+                   \* "parts": the last part is flushed too when it shares its segment with a flushed part, and the
+                   \*         writer reopens on the manifest's log number as it is after recovery - but EVERY part's
+                   \*         flush still sets log_number = segment + 1 (first version of the repair, 39e3ade)
+                   \* "repo": ... and only the flush of the last part of a segment marks the segment as flushed
 
 Txn == 1..MaxTxn
 Entries(t) == {<<t, 1>>, <<t, 2>>}
@@ -68,9 +70,12 @@ VARIABLES
     acked,      \* acknowledged transactions
     ackedSync,  \* ... that must survive a power loss
     down,       \* the process has crashed and has not been restarted yet
-    ncrash
+    ncrash,
+    rq,         \* start-up in progress: recovered memtables still to be flushed (each with `done` = it completes its segment)
+    rlast,      \* ... and the one that becomes the active memtable
+    rph         \* "none" | "flushing": a start-up is in progress
 ovars == <<next, cph, csync, loggedIn, wal, active, mem, imm, tab, man, nextTab, fph, kph, kin, ncompact, acked, ackedSync>>
-vars == <<ovars, down, ncrash>>
+vars == <<ovars, down, ncrash, rq, rlast, rph>>
 
 NoTab == [ents |-> {}, synced |-> FALSE, exists |-> FALSE]
 
@@ -85,7 +90,7 @@ Init ==
     /\ nextTab = 1
     /\ fph = "idle" /\ kph = "idle" /\ kin = {} /\ ncompact = 0
     /\ acked = {} /\ ackedSync = {}
-    /\ down = FALSE /\ ncrash = 0
+    /\ down = FALSE /\ ncrash = 0 /\ rq = <<>> /\ rlast = {} /\ rph = "none"
 
 WalAppend(s, t, sync) ==
     [wal EXCEPT ![s] = [recs |-> Append(wal[s].recs, t),
@@ -203,11 +208,12 @@ CompactDelete ==
 (* sessions: a process crash (the files stay as they are, everything in memory is gone) and the next start-up      *)
 (* (src/lsm.rs Core::new: orphan clean-up, replay_wal_with_repair, reopening the commit-log writer)                 *)
 Crash ==
-    /\ ~down /\ ncrash < MaxCrash
+    /\ ncrash < MaxCrash /\ (~down \/ rph = "flushing")    \* also in the middle of a start-up
     /\ down' = TRUE /\ ncrash' = ncrash + 1
     /\ mem' = [ents |-> {}, seg |-> active] /\ imm' = <<>>
     /\ next' = IF cph = "idle" THEN next ELSE next + 1        \* a commit in flight is abandoned (its record may survive)
     /\ cph' = "idle" /\ fph' = "idle" /\ kph' = "idle" /\ kin' = {}
+    /\ rq' = <<>> /\ rlast' = {} /\ rph' = "none"
     /\ UNCHANGED <<csync, loggedIn, wal, active, tab, man, nextTab, ncompact, acked, ackedSync>>
 
 Max2(a, b) == IF a > b THEN a ELSE b
@@ -223,34 +229,52 @@ PartsFrom(s, acc) ==
     IF s > MaxRot THEN acc
     ELSE PartsFrom(s + 1, IF wal[s].exists /\ s >= man.log THEN ChunkSeq(s, 1, acc) ELSE acc)
 
-Recover ==
-    /\ down
+\* start-up, first step: orphan clean-up, replay into memtables, decide what has to be flushed at once
+RecoverBegin ==
+    /\ down /\ rph = "none"
+    /\ rph' = "flushing"
     /\ LET parts == PartsFrom(0, <<>>)
            n == Len(parts)
            lastShares == n > 1 /\ parts[n - 1].seg = parts[n].seg
-           nflush == IF n = 0 THEN 0 ELSE IF RecoverVariant = "repo" /\ lastShares THEN n ELSE n - 1
-           newLog == IF nflush = 0 THEN man.log ELSE Max2(man.log, parts[nflush].seg + 1)
-           highest == CHOOSE s \in Segs : wal[s].exists /\ \A x \in Segs : wal[x].exists => x <= s
-           act == Max2(IF RecoverVariant = "repo" THEN newLog ELSE man.log, highest)
-       IN /\ act \in Segs /\ nextTab + nflush - 1 \in TableIds \cup {0}
-          /\ tab' = [i \in TableIds |->
-                        IF i >= nextTab /\ i < nextTab + nflush
-                        THEN [ents |-> parts[i - nextTab + 1].ents, synced |-> TRUE, exists |-> TRUE]
-                        ELSE IF i \in man.tables THEN tab[i] ELSE NoTab]          \* orphans are removed
-          /\ man' = [tables |-> man.tables \cup {i \in TableIds : i >= nextTab /\ i < nextTab + nflush}, log |-> newLog]
-          /\ nextTab' = nextTab + nflush
-          /\ mem' = [ents |-> IF n > nflush THEN parts[n].ents ELSE {}, seg |-> act]
-          /\ active' = act
-          /\ wal' = [wal EXCEPT ![act] = [@ EXCEPT !.exists = TRUE]]
-    /\ down' = FALSE
-    /\ UNCHANGED <<next, cph, csync, loggedIn, imm, fph, kph, kin, ncompact, acked, ackedSync, ncrash>>
+           nflush == IF n = 0 THEN 0 ELSE IF RecoverVariant # "orig" /\ lastShares THEN n ELSE n - 1
+       IN /\ tab' = [i \in TableIds |-> IF i \in man.tables THEN tab[i] ELSE NoTab]          \* orphans are removed
+          /\ rq' = [i \in 1..nflush |-> [ents |-> parts[i].ents, seg |-> parts[i].seg,
+                                          done |-> (i = n) \/ (parts[i + 1].seg # parts[i].seg)]]
+          /\ rlast' = IF n > nflush THEN parts[n].ents ELSE {}
+    /\ UNCHANGED <<next, cph, csync, loggedIn, wal, active, mem, imm, man, nextTab, fph, kph, kin, ncompact, acked, ackedSync,
+                   down, ncrash>>
+
+\* ... one recovered memtable goes to disk (table written, synced, manifest switched - one step here)
+RecoverFlushPart ==
+    /\ down /\ rph = "flushing" /\ rq # <<>> /\ nextTab \in TableIds
+    /\ LET p == Head(rq) IN
+       /\ tab' = [tab EXCEPT ![nextTab] = [ents |-> p.ents, synced |-> TRUE, exists |-> TRUE]]
+       /\ man' = [tables |-> man.tables \cup {nextTab},
+                  log |-> IF RecoverVariant = "repo" /\ ~p.done THEN man.log ELSE Max2(man.log, p.seg + 1)]
+    /\ nextTab' = nextTab + 1 /\ rq' = Tail(rq)
+    /\ UNCHANGED <<next, cph, csync, loggedIn, wal, active, mem, imm, fph, kph, kin, ncompact, acked, ackedSync, down,
+                   ncrash, rlast, rph>>
+
+\* ... the rest becomes the active memtable, the commit-log writer is reopened, the store is up
+RecoverDone ==
+    /\ down /\ rph = "flushing" /\ rq = <<>>
+    /\ LET highest == CHOOSE s \in Segs : wal[s].exists /\ \A x \in Segs : wal[x].exists => x <= s
+           act == Max2(man.log, highest)
+           actOrig == highest
+       IN LET a == IF RecoverVariant = "orig" THEN actOrig ELSE act IN
+          /\ a \in Segs
+          /\ mem' = [ents |-> rlast, seg |-> a]
+          /\ active' = a
+          /\ wal' = [wal EXCEPT ![a] = [@ EXCEPT !.exists = TRUE]]
+    /\ down' = FALSE /\ rlast' = {} /\ rph' = "none"
+    /\ UNCHANGED <<next, cph, csync, loggedIn, imm, tab, man, nextTab, fph, kph, kin, ncompact, acked, ackedSync, ncrash, rq>>
 
 Running ==
     \/ Log(TRUE) \/ Log(FALSE) \/ ApplyFit \/ Rotate \/ Relog \/ Ack \/ FlushWalSync
     \/ FlushWrite \/ FlushSync \/ FlushSwitch \/ WalCleanup
     \/ CompactWrite \/ CompactSync \/ CompactSwitch \/ CompactDelete
 
-Next == (~down /\ Running /\ UNCHANGED <<down, ncrash>>) \/ Crash \/ Recover
+Next == (~down /\ Running /\ UNCHANGED <<down, ncrash, rq, rlast, rph>>) \/ Crash \/ RecoverBegin \/ RecoverFlushPart \/ RecoverDone
 
 Spec == Init /\ [][Next]_vars
 
